@@ -119,10 +119,16 @@ impl Date {
     /// `Date` adds days
     #[inline]
     pub fn add_days(self, days: f64) -> Result<Date> {
-        let timestamp = self.0.add_days(days)?;
+        let usecs = self.0.add_days(days)?.usecs();
+        // Rounds to the nearest second in integers: the microsecond count can exceed 2^53.
+        let half = USECONDS_PER_SECOND / 2;
+        let seconds = if usecs >= 0 {
+            (usecs + half) / USECONDS_PER_SECOND
+        } else {
+            (usecs - half) / USECONDS_PER_SECOND
+        };
         Ok(Date(Timestamp::try_from_usecs(
-            ((timestamp.usecs() as f64) / USECONDS_PER_SECOND as f64).round() as i64
-                * USECONDS_PER_SECOND,
+            seconds * USECONDS_PER_SECOND,
         )?))
     }
 
